@@ -32,7 +32,7 @@ T = 'chainables.tree'
 
 
 def run(ctx: Ctx):
-  for r in (r1, r2, r3, r4, r5, r6):
+  for r in (r1, r2, r3, r4, r5, r6, r7):
     ctx.guard(r)
 
 
@@ -391,10 +391,53 @@ def r6(ctx: Ctx):
   ctx.floor(rule, 1, n)
 
 
+def r7(ctx: Ctx):
+  rule = 'R-C18-7'
+  ctx.rule(rule, '"applying a leaf function maps every leaf and only leaves": in'
+           ' the path reader of TreeMapView, a Literal key component yields its'
+           ' own value directly — no path from the `isinstance(k, Literal)`'
+           ' branch reaches a return that passes through the view\'s leaf'
+           ' function (_maybe_map); a literal is not a leaf of the tree')
+  ci = ctx.repo.cls(T, 'TreeMapView')
+  fi = None
+  for name, m_ in ci.methods.items():
+    if name.endswith('__get') or name == '_TreeMapView__get':
+      fi = m_
+  if fi is None:
+    raise AnalysisError(f'{rule}: TreeMapView.__get not found')
+  g = cfgm.cfg_of(fi.node)
+  conds = [c for c in g.nodes if c.kind == 'cond' and 'Literal' in unparse(c.ast) and 'isinstance' in unparse(c.ast)]
+  if not conds:
+    raise AnalysisError(f'{rule}: the Literal branch was not found in __get')
+  n = 0
+  for c in conds:
+    n += 1
+    starts = [s_ for s_, lab in c.succ if lab == 'true']
+    reach = g.reachable(starts, edge_ok=cfgm.only_normal, include_src=True)
+    mapped = [nd for nd in reach if nd.kind == 'stmt' and isinstance(nd.ast, ast.Return) and any(
+        isinstance(x, ast.Call) and isinstance(x.func, ast.Attribute) and x.func.attr == '_maybe_map'
+        for x in ast.walk(nd.ast))]
+    # returns inside the loop that belong to LATER iterations are reached through the loop head
+    loops = [l for l in g.nodes if l.kind == 'for_iter']
+    direct = g.reachable(starts, avoid=lambda nd: nd in loops, edge_ok=cfgm.only_normal, include_src=True)
+    mapped = [nd for nd in mapped if nd in direct]
+    if mapped:
+      ctx.fail(rule, fi, 'TreeMapView.__get: a Literal component returns its value unmapped',
+               f'from the Literal branch the reader reaches `{mapped[0].text()[:50]}`:'
+               ' the literal\'s value is run through the view\'s leaf function, so'
+               ' view[path, Literal(3)] returns map_fn(3) instead of 3', node=mapped[0].ast)
+    else:
+      ctx.ok(rule, fi, 'a Literal component is returned without the leaf function', c.ast)
+  ctx.floor(rule, 1, n)
+
+
 from mlmverif.selfcheck import B, OK  # noqa: E402
 
 _F = 'chainables/tree.py'
 VARIANTS = [
+    B('literal-value-through-leaf-fn', _F,
+      '      if isinstance(k, Literal):\n        return k.value',
+      '      if isinstance(k, Literal):\n        data = k.value\n        break', 'R-C18-7'),
     B('multi-key-set-breaks-on-skip', _F,
       '          for key, value in zip(keys, values, strict=True):\n            data = self._set_by_path(data, key, value, in_place)',
       '          for key, value in zip(keys, values, strict=True):\n            if _is_key(key, _SKIP):\n              break\n            data = self._set_by_path(data, key, value, in_place)',
